@@ -158,6 +158,10 @@ func prepare(c *gj5s.Case) *bundleCase {
 func (bc *bundleCase) fresh() *gj5s.Bundle {
 	nb := gj5s.NewBundle()
 	for _, f := range bc.c.P.Files {
+		if f.ListedOnly {
+			nb.Files[f.Path()] = bc.b.Files[f.Path()]
+			continue
+		}
 		nb.Add(f.Path(), bc.b.Files[f.Path()])
 	}
 	return nb
